@@ -66,34 +66,34 @@ def errorSites : List (String × String × Bool × Bool) := [
 def errorCatalogue : List String := ["DomainToASCII", "DomainToUnicode", "DomainInvalidCodePoint", "HostInvalidCodePoint", "IPv4EmptyPart", "IPv4TooManyParts", "IPv4NonNumericPart", "IPv4NonDecimalPart", "IPv4OutOfRangePart", "IPv6Unclosed", "IPv6InvalidCompression", "IPv6TooManyPieces", "IPv6MultipleCompression", "IPv6InvalidCodePoint", "IPv6TooFewPieces", "IPv4InIPv6TooManyPieces", "IPv4InIPv6InvalidCodePoint", "IPv4InIPv6OutOfRangePart", "IPv4InIPv6TooFewParts", "InvalidURLUnit", "SpecialSchemeMissingFollowingSolidus", "MissingSchemeNonRelativeURL", "InvalidReverseSolidus", "InvalidCredentials", "HostMissing", "PortMissing", "PortOutOfRange", "PortInvalid", "FileInvalidWindowsDriveLetter", "FileInvalidWindowsDriveLetterHost"]
 
 def skeleton : List (List String × List String × List String) := [
-  (["StateSchemeStart"], ["StateScheme", "StateNoScheme"], ["rewindLast"]),
-  (["StateScheme"], ["StateFile", "StateSpecialRelativeOrAuthority", "StateSpecialAuthoritySlashes", "StatePathOrAuthority", "StateOpaquePath", "StateNoScheme"], ["nextCodePoint", "reset"]),
+  (["StateAuthority"], ["StateHost"], ["rewind"]),
+  (["StateFile"], ["StateFileSlash", "StateQuery", "StateFragment", "StatePath", "StatePath"], ["rewindLast", "rewindLast"]),
+  (["StateFileHost"], ["StatePath", "StatePathStart", "StatePathStart"], ["rewindLast"]),
+  (["StateFileSlash"], ["StateFileHost", "StatePath"], ["rewindLast"]),
+  (["StateFragment"], [], []),
+  (["StateHost"], ["FALLTHROUGH:StateHostname"], []),
+  (["StateHostname"], ["StateFileHost", "StatePort", "StatePathStart"], ["rewindLast", "rewindLast"]),
   (["StateNoScheme"], ["StateFragment", "StateRelative", "StateFile"], ["rewindLast", "rewindLast"]),
-  (["StateSpecialRelativeOrAuthority"], ["StateSpecialAuthorityIgnoreSlashes", "StateRelative"], ["nextCodePoint", "rewindLast"]),
+  (["StateOpaquePath"], ["StateQuery", "StateFragment"], []),
+  (["StatePath"], ["StateQuery", "StateFragment"], []),
   (["StatePathOrAuthority"], ["StateAuthority", "StatePath"], ["rewindLast"]),
+  (["StatePathStart"], ["StatePath", "StateQuery", "StateFragment", "StatePath"], ["rewindLast", "rewindLast"]),
+  (["StatePort"], ["StatePathStart"], ["rewindLast"]),
+  (["StateQuery"], ["StateFragment"], []),
   (["StateRelative"], ["StateRelativeSlash", "StateRelativeSlash", "StateQuery", "StateFragment", "StatePath"], ["rewindLast"]),
   (["StateRelativeSlash"], ["StateSpecialAuthorityIgnoreSlashes", "StateAuthority", "StatePath"], ["rewindLast"]),
-  (["StateSpecialAuthoritySlashes"], ["StateSpecialAuthorityIgnoreSlashes", "StateSpecialAuthorityIgnoreSlashes"], ["nextCodePoint", "rewindLast"]),
+  (["StateScheme"], ["StateFile", "StateSpecialRelativeOrAuthority", "StateSpecialAuthoritySlashes", "StatePathOrAuthority", "StateOpaquePath", "StateNoScheme"], ["nextCodePoint", "reset"]),
+  (["StateSchemeStart"], ["StateScheme", "StateNoScheme"], ["rewindLast"]),
   (["StateSpecialAuthorityIgnoreSlashes"], ["StateAuthority"], ["rewindLast"]),
-  (["StateAuthority"], ["StateHost"], ["rewind"]),
-  (["StateHost"], ["FALLTHROUGH"], []),
-  (["StateHostname"], ["StateFileHost", "StatePort", "StatePathStart"], ["rewindLast", "rewindLast"]),
-  (["StatePort"], ["StatePathStart"], ["rewindLast"]),
-  (["StateFile"], ["StateFileSlash", "StateQuery", "StateFragment", "StatePath", "StatePath"], ["rewindLast", "rewindLast"]),
-  (["StateFileSlash"], ["StateFileHost", "StatePath"], ["rewindLast"]),
-  (["StateFileHost"], ["StatePath", "StatePathStart", "StatePathStart"], ["rewindLast"]),
-  (["StatePathStart"], ["StatePath", "StateQuery", "StateFragment", "StatePath"], ["rewindLast", "rewindLast"]),
-  (["StatePath"], ["StateQuery", "StateFragment"], []),
-  (["StateOpaquePath"], ["StateQuery", "StateFragment"], []),
-  (["StateQuery"], ["StateFragment"], []),
-  (["StateFragment"], [], [])]
+  (["StateSpecialAuthoritySlashes"], ["StateSpecialAuthorityIgnoreSlashes", "StateSpecialAuthorityIgnoreSlashes"], ["nextCodePoint", "rewindLast"]),
+  (["StateSpecialRelativeOrAuthority"], ["StateSpecialAuthorityIgnoreSlashes", "StateRelative"], ["nextCodePoint", "rewindLast"])]
 
 def baseCopies : List (String × List String) := [
-  ("StateNoScheme", ["url.scheme = base.scheme", "url.path = base.path", "url.query = base.query"]),
-  ("StateRelative", ["url.scheme = base.scheme", "url.username = base.username", "url.password = base.password", "url.host = base.host", "url.port = base.port", "url.decodedPort = base.decodedPort", "url.path = base.path", "url.query = base.query"]),
-  ("StateRelativeSlash", ["url.username = base.username", "url.password = base.password", "url.host = base.host", "url.port = base.port", "url.decodedPort = base.decodedPort"]),
   ("StateFile", ["url.host = base.host", "url.path = base.path", "url.query = base.query"]),
-  ("StateFileSlash", ["url.host = base.host"])]
+  ("StateFileSlash", ["url.host = base.host"]),
+  ("StateNoScheme", ["url.path = base.path", "url.query = base.query", "url.scheme = base.scheme"]),
+  ("StateRelative", ["url.decodedPort = base.decodedPort", "url.host = base.host", "url.password = base.password", "url.path = base.path", "url.port = base.port", "url.query = base.query", "url.scheme = base.scheme", "url.username = base.username"]),
+  ("StateRelativeSlash", ["url.decodedPort = base.decodedPort", "url.host = base.host", "url.password = base.password", "url.port = base.port", "url.username = base.username"])]
 
 def parserOptionWrites : List (String × List String) := [
   ("WithReportValidationErrors", ["reportValidationErrors"]),
@@ -123,6 +123,36 @@ def canonOptionWrites : List (String × List String) := [
   ("WithRepeatedPercentDecoding", ["repeatedPercentDecoding"]),
   ("WithDefaultScheme", ["defaultScheme"]),
   ("WithSortQuery", ["sortQuery"])]
+
+def parserOptionEffects : List (String × List String) := [
+  ("WithReportValidationErrors", ["ReportValidationErrors"]),
+  ("WithFailOnValidationError", ["FailOnValidationError"]),
+  ("WithLaxHostParsing", ["LaxHostParsing"]),
+  ("WithCollapseConsecutiveSlashes", ["CollapseConsecutiveSlashes"]),
+  ("WithAcceptInvalidCodepoints", ["AcceptInvalidCodepoints"]),
+  ("WithPreParseHostFunc", ["PreParseHostFunc"]),
+  ("WithPostParseHostFunc", ["PostParseHostFunc"]),
+  ("WithPercentEncodeSinglePercentSign", ["PercentEncodeSinglePercentSign"]),
+  ("WithAllowSettingPathForNonBaseUrl", ["AllowSettingPathForNonBaseUrl"]),
+  ("WithSkipWindowsDriveLetterNormalization", ["SkipWindowsDriveLetterNormalization"]),
+  ("WithSpecialSchemes", ["SpecialSchemes"]),
+  ("WithSkipTrailingSlashNormalization", ["SkipTrailingSlashNormalization"]),
+  ("WithEncodingOverride", ["EncodingOverride"]),
+  ("WithPathPercentEncodeSet", ["PathPercentEncodeSet"]),
+  ("WithQueryPercentEncodeSet", ["QueryPercentEncodeSet"]),
+  ("WithSpecialQueryPercentEncodeSet", ["SpecialQueryPercentEncodeSet"]),
+  ("WithFragmentPathPercentEncodeSet", ["FragmentPercentEncodeSet"]),
+  ("WithSpecialFragmentPathPercentEncodeSet", ["SpecialFragmentPercentEncodeSet"]),
+  ("WithSkipEqualsForEmptySearchParamsValue", ["SkipEqualsForEmptySearchParamsValue"])]
+
+def canonOptionEffects : List (String × List String) := [
+  ("WithRemoveUserInfo", ["RemoveUserInfo"]),
+  ("WithRemovePort", ["RemovePort"]),
+  ("WithRemoveFragment", ["RemoveFragment"]),
+  ("WithRepeatedPercentDecoding", ["RepeatedPercentDecoding"]),
+  ("WithDefaultScheme", ["DefaultScheme"]),
+  ("WithSortQuery(SortKeys)", ["SortQuery"]),
+  ("WithSortQuery(SortParameter)", ["SortQuery"])]
 
 def profileOptions : List (String × List String) := [
   ("WhatWg", []),
@@ -259,7 +289,7 @@ def modrefUrl : List (String × Bool × List String × List String × List Strin
   ("inputString.remainingStartsWith", false, [], [], [], []),
   ("inputString.remainingIsInvalidPercentEncoded", false, [], [], [], [("bitset.BitSet.Test", "global")]),
   ("remainingIsInvalidPercentEncoded", false, [], [], [], [("bitset.BitSet.Test", "global")]),
-  ("inputString.String", true, [], [], [], []),
+  ("inputString.String", false, [], [], [], []),
   ("NewParser", true, [], [], [], []),
   ("parser.Parse", true, [], ["fresh"], [], [("bitset.BitSet.Clone", "global"), ("bitset.BitSet.Clone", "recv"), ("bitset.BitSet.Test", "global"), ("bitset.BitSet.Test", "recv"), ("charmap.Charmap.DecodeByte", "recv"), ("charmap.Charmap.EncodeRune", "recv"), ("charmap.Charmap.String", "recv"), ("idna.Profile.ToASCII", "global")]),
   ("parser.ParseRef", true, [], ["fresh"], [], [("bitset.BitSet.Clone", "global"), ("bitset.BitSet.Clone", "recv"), ("bitset.BitSet.Test", "global"), ("bitset.BitSet.Test", "recv"), ("charmap.Charmap.DecodeByte", "recv"), ("charmap.Charmap.EncodeRune", "recv"), ("charmap.Charmap.String", "recv"), ("idna.Profile.ToASCII", "global")]),
@@ -319,7 +349,7 @@ def modrefUrl : List (String × Bool × List String × List String × List Strin
   ("path.shortenPath", false, ["recv"], [], [], [("bitset.BitSet.Test", "global")]),
   ("path.stripTrailingSpacesIfOpaque", false, ["recv"], [], [], []),
   ("path.clone", false, [], ["fresh"], [], []),
-  ("path.String", true, [], [], [], []),
+  ("path.String", false, [], [], [], []),
   ("SearchParams.init", false, ["recv"], [], [], [("bitset.BitSet.Test", "global"), ("charmap.Charmap.DecodeByte", "recv")]),
   ("SearchParams.update", false, ["recv"], [], [], [("bitset.BitSet.Test", "recv"), ("charmap.Charmap.EncodeRune", "recv")]),
   ("SearchParams.Append", true, ["recv"], [], [], [("bitset.BitSet.Test", "recv"), ("charmap.Charmap.EncodeRune", "recv")]),
